@@ -14,7 +14,7 @@ func Lint$1
   refines parser.NeverStop
   captured @out lc.ReporterConfig.Output != nil
   modifies errorsFound
-  modifies ghost(bufSticky, sinkFailed, sinkPend, prLen, prSink, prArg)
+  modifies ghost(bufSticky, sinkFailed, sinkPend, prLen, prSink, prArg, prArgs)
   ensures @prints-error err != nil ==> prLen == old(prLen) + 1 && prSink == store(old(prSink), old(prLen), payload(lc.ReporterConfig.Output)) && prArg == store(old(prArg), old(prLen), err)
   ensures @silent-on-record err == nil ==> prLen == old(prLen) && prArg == old(prArg) && prSink == old(prSink)
   ensures @counts errorsFound == old(errorsFound) + (if err != nil then 1 else 0)
@@ -25,7 +25,7 @@ func Lint
   props C08 C09
   requires @out lc.ReporterConfig.Output != nil
   calluse ParseStreamCallback#1 lint
-  modifies ghost(cbLen, cbErr, cbNode, cbStop, cbRet, cbLineNo, cbLine, cbHeader, cbElems, cbNElems, scRd, scPos, privLo, evOf, prOf, evOfPr, bufSticky, sinkFailed, sinkPend, prLen, prSink, prArg)
+  modifies ghost(cbLen, cbErr, cbNode, cbStop, cbRet, cbLineNo, cbLine, cbHeader, cbElems, cbNElems, scRd, scPos, privLo, evOf, prOf, evOfPr, bufSticky, sinkFailed, sinkPend, prLen, prSink, prArg, prArgs)
   let rd := payload(stream)
   let cc := lc.ParserConfig.CommentChar
   ghost after call 1 ParseStreamCallback {
